@@ -170,6 +170,10 @@ def user_model(draw, existing=()):
         b = draw(st.sampled_from(base_pool))
         k = draw(st.integers(1, max(1, len(b) - 1)))
         s = b[:k]
+    elif c == 8:
+        # a published name in another letter case is a different name
+        b = draw(st.sampled_from(N.MODELS))
+        s = draw(st.sampled_from((b.lower(), b.capitalize(), b.swapcase(), b.upper())))
     elif c == 5:
         s = draw(st.sampled_from(_WORD1)) + draw(st.text(alphabet=_WORD1 + "-", min_size=0, max_size=6)) + draw(st.sampled_from(_WORD1))
     else:
@@ -232,7 +236,7 @@ def c06_case(draw):
         model = draw(st.sampled_from(allnames)) if use_user else draw(st.sampled_from(N.MODELS))
         # relatives: names related by prefix get used side by side
         if draw(st.integers(0, 2)) == 0:
-            rel = [k for k in known if k != model and (k.startswith(model) or model.startswith(k))]
+            rel = [k for k in known if k != model and (k.startswith(model) or model.startswith(k) or k.lower() == model.lower())]
             if rel:
                 model = draw(st.sampled_from(sorted(rel)))
         fs = [draw(st.sampled_from(labels)) for _ in range(draw(st.integers(0, 3)))]
